@@ -170,6 +170,46 @@ Theorem C04_readcache_transparent :
 Proof. exact readcache_transparent. Qed.
 Print Assumptions C04_readcache_transparent.
 
+(** The hit test compares full 64-bit addresses and the address space: a slot
+    answers only for addresses inside its own region [addr, addr+size) of the same
+    space, for ALL 64-bit addresses (so in particular not for addresses 2^16, 2^31,
+    2^32, 2^63 … away, which a narrowing cast of the offset would accept). *)
+Theorem C04_readcache_hit_exact :
+  forall (s : slot) (a_as a : N),
+    addr s + size s <= W -> a < W ->
+    (hit_test s a_as a = true <-> a_as = as_ s /\ addr s <= a < addr s + size s).
+Proof. exact readcache_hit_exact. Qed.
+Print Assumptions C04_readcache_hit_exact.
+
+(** hence find_slot (get_cache_buf's hit, bury_cache_buffer's match) returns the
+    first slot that owns the address, nothing iff no slot owns it, and bury moves
+    exactly that slot *)
+Theorem C04_readcache_find_slot_exact :
+  forall (c : cache) (a_as a : N),
+    nowrap c -> a < W ->
+    (forall i, find_slot c a_as a = Some i ->
+       owns (get_slot c i) a_as a /\
+       forall j, ix_to_N j < ix_to_N i -> ~ owns (get_slot c j) a_as a) /\
+    (find_slot c a_as a = None <-> forall i, ~ owns (get_slot c i) a_as a) /\
+    ((forall i, ~ owns (get_slot c i) a_as a) -> bury c a_as a = c) /\
+    (forall i, find_slot c a_as a = Some i ->
+       bury c a_as a = {| slots := slots c; rg := bury_ring (rg c) i |}).
+Proof. exact readcache_find_slot_exact. Qed.
+Print Assumptions C04_readcache_find_slot_exact.
+
+(** the truncated variants (offset computed in k < 64 bits, e.g. a helper
+    returning [unsigned]) are refuted: a slot falsely answers 2^k away, and for
+    k = 16, 31, 32, 63 two reads on the synthetic callback return the first
+    region's bytes for the second address *)
+Theorem C04_readcache_hit_truncated_refuted :
+  (forall k : N, k < 64 ->
+     let s := {| as_ := 0; addr := 0; size := 1; ptr := None |} in
+     2 ^ k < W /\ ~ (addr s <= 2 ^ k < addr s + size s) /\
+     hit_test_w k s 0 (2 ^ k) = true /\ hit_test s 0 (2 ^ k) = false) /\
+  Forall trunc_witness [16; 31; 32; 63].
+Proof. exact readcache_hit_truncated_refuted. Qed.
+Print Assumptions C04_readcache_hit_truncated_refuted.
+
 (** LRU order: the victim of a miss is the least recently touched slot; a
     successful call moves its slot to the front; bury moves it to the back and
     makes it the next victim (ring read from [mru] along [next]). *)
